@@ -11,13 +11,17 @@ import (
 	"os"
 	"os/exec"
 	"path/filepath"
+	"regexp"
 	"sort"
 	"strings"
 	"sync"
 	"time"
 
+	"github.com/go-faster/errors"
+
 	"github.com/ogen-go/ogen"
 	"github.com/ogen-go/ogen/gen"
+	"github.com/ogen-go/ogen/location"
 
 	"verifharness/internal/ev"
 )
@@ -26,7 +30,7 @@ import (
 type RecFS struct {
 	mu    sync.Mutex
 	Files map[string][]byte
-	Order []string // completion order of WriteFile calls
+	Order []string          // completion order of WriteFile calls
 	Hook  func(name string) // called before recording (delay injection)
 }
 
@@ -45,12 +49,12 @@ func (f *RecFS) WriteFile(name string, content []byte) error {
 
 // Result of one in-process generation.
 type Result struct {
-	Stage  string // "parse" | "ir" | "write" | "ok" : where it stopped
-	Err    error
-	Panic  string
-	FS     *RecFS
-	Gen    *gen.Generator
-	Spec   *ogen.Spec
+	Stage string // "parse" | "ir" | "write" | "ok" : where it stopped
+	Err   error
+	Panic string
+	FS    *RecFS
+	Gen   *gen.Generator
+	Spec  *ogen.Spec
 }
 
 func (r *Result) OK() bool { return r.Stage == "ok" }
@@ -297,5 +301,144 @@ func Corpus(kinds ...string) []string {
 		})
 	}
 	sort.Strings(out)
+	return out
+}
+
+// ---------------------------------------------------------------- items
+
+// Item is one document + configuration to run through the generator; it is
+// serialisable so that worker processes can run it.
+type Item struct {
+	ID          string   `json:"id"`
+	Path        string   `json:"path,omitempty"` // read from file
+	Text        string   `json:"text,omitempty"` // or inline
+	Name        string   `json:"name,omitempty"` // file name shown in diagnostics
+	Features    []string `json:"features,omitempty"`
+	DefaultFeat bool     `json:"default_features,omitempty"` // ignore Features, use ogen's defaults
+	Infer       bool     `json:"infer,omitempty"`
+	IgnoreAll   bool     `json:"ignore_all,omitempty"`
+	Convenient  string   `json:"convenient,omitempty"`
+	AllowRemote bool     `json:"allow_remote,omitempty"`
+	Package     string   `json:"package,omitempty"`
+}
+
+// Options builds gen.Options and returns the document bytes.
+func (it *Item) Options() ([]byte, gen.Options, error) {
+	var o gen.Options
+	var data []byte
+	name := it.Name
+	if it.Path != "" && it.AllowRemote {
+		o.Parser.AllowRemote = true
+		d, err := o.SetLocation(it.Path, gen.RemoteOptions{})
+		if err != nil {
+			return nil, o, err
+		}
+		data = d
+	} else {
+		if it.Path != "" {
+			d, err := os.ReadFile(it.Path)
+			if err != nil {
+				return nil, o, err
+			}
+			data = d
+			if name == "" {
+				name = filepath.Base(it.Path)
+			}
+		} else {
+			data = []byte(it.Text)
+			if name == "" {
+				name = "spec"
+			}
+		}
+		o.Parser.File = location.NewFile(name, name, data)
+	}
+	o.Parser.InferSchemaType = it.Infer
+	if it.IgnoreAll {
+		o.Generator.IgnoreNotImplemented = []string{"all"}
+	}
+	if it.Convenient != "" {
+		if err := o.Generator.ConvenientErrors.Set(it.Convenient); err != nil {
+			return nil, o, err
+		}
+	}
+	if !it.DefaultFeat && it.Features != nil {
+		o.Generator.Features = Features(it.Features...)
+	}
+	return data, o, nil
+}
+
+// Run generates the item in-process.
+func (it *Item) Run(hook func(string)) *Result {
+	data, o, err := it.Options()
+	if err != nil {
+		return &Result{Stage: "read", Err: err, FS: NewRecFS()}
+	}
+	pkg := it.Package
+	if pkg == "" {
+		pkg = "api"
+	}
+	return Generate(data, o, pkg, hook)
+}
+
+// CorpusItem makes an item for a corpus file with the options the repository's own
+// TestGenerate uses (type inference on, not-implemented features skipped).
+func CorpusItem(path string) Item {
+	it := Item{ID: strings.TrimPrefix(path, filepath.Join(ev.RepoDir(), "_testdata")+"/"), Path: path, Infer: true, IgnoreAll: true, DefaultFeat: true}
+	if strings.Contains(path, "file_reference") {
+		it.AllowRemote = true
+	}
+	if strings.Contains(path, "convenient_errors") {
+		it.Convenient = "on"
+	}
+	return it
+}
+
+// Pos is a position a user would be shown for an error.
+type Pos struct {
+	Line int    `json:"line"`
+	Col  int    `json:"col"`
+	File string `json:"file,omitempty"`
+	Kind string `json:"kind"` // innermost | text
+}
+
+var atRe = regexp.MustCompile(`at ([^\s:]*):(\d+):(\d+)`)
+var atRe2 = regexp.MustCompile(`(?:^|[\s(])(?:line )(\d+)`)
+
+// Positions extracts every position shown in the error: the innermost
+// location.Error with a line (what PrintPrettyError highlights) and every
+// "at file:L:C" occurrence of the text.
+func Positions(err error) []Pos {
+	var out []Pos
+	if err == nil {
+		return nil
+	}
+	var inner *location.Error
+	iter := err
+	for {
+		le, ok := errors.Into[*location.Error](iter)
+		if !ok {
+			break
+		}
+		if le.Pos.Line != 0 {
+			inner = le
+		}
+		iter = le.Err
+	}
+	if inner != nil {
+		out = append(out, Pos{Line: inner.Pos.Line, Col: inner.Pos.Column, File: inner.File.HumanName(), Kind: "innermost"})
+	}
+	for _, m := range atRe.FindAllStringSubmatch(err.Error(), -1) {
+		var l, c int
+		fmt.Sscan(m[2], &l)
+		fmt.Sscan(m[3], &c)
+		out = append(out, Pos{Line: l, Col: c, File: m[1], Kind: "text"})
+	}
+	if len(out) == 0 {
+		for _, m := range atRe2.FindAllStringSubmatch(err.Error(), -1) {
+			var l int
+			fmt.Sscan(m[1], &l)
+			out = append(out, Pos{Line: l, Kind: "line-only"})
+		}
+	}
 	return out
 }
